@@ -577,7 +577,7 @@ func init() {
 	})
 	addProp(&PropSpec{
 		ID:          "C16",
-		Rules:       []string{"R-METHODTYPES", "R-F2I", "R-FINITE", "R-OVF", "R-TOWER", "R-STATE", "R-RADIX", "R-EMPTYPROD", "R-ERRFIRST"},
+		Rules:       []string{"R-METHODTYPES", "R-F2I", "R-FINITE", "R-OVF", "R-TOWER", "R-STATE", "R-RADIX", "R-EMPTYPROD", "R-ERRFIRST", "R-DIGITRANGE"},
 		Explanation: "Domains and ranges of the item methods as finite tables and guard discipline: for each of the 12 methods the set of item types that reach the continuation is computed by walking the method with the input type fixed (abstract interpretation) and compared with the documented domain, every other type must leave through a suppressible error; conversions to integers are range-guarded as evaluated in float64; computed doubles are finiteness-checked; integer callbacks cannot wrap; the numeric representations are handled together; no method arm is missing.",
 		Decided: []string{"R-METHODTYPES: accepted-type table of all 12 methods (156 cells) and suppressible rejection", "R-F2I: .integer()/.bigint() conversions are range-safe (2^63 included)",
 			"R-FINITE: .double()/.number()/.decimal() never yield Inf/NaN", "R-OVF: .abs() cannot wrap", "R-TOWER", "R-METHODTYPES also reports a method constant without an arm in the dispatcher"},
